@@ -212,6 +212,9 @@ where
         // Get next tokens (lexer should skip ws if configured to do so).
         // If error run layout_parser. If there is layout try next tokens again.
         // If no next token can be returned report error returned from the lexer.
+        // Layout is parsed at most once before a token (the same as in the GLR parser):
+        // everything between two tokens must be a single sentence of the Layout rule.
+        let mut layout_parsing = true;
         loop {
             let expected_tokens = self.definition.expected_token_kinds(context.state());
             let mut next_tokens = self.lexer.next_tokens(context, input, expected_tokens);
@@ -242,7 +245,8 @@ where
                 return Ok(next_token);
             } else {
                 // No token found at current position. Try layout if configured.
-                if let Some(layout_parser) = layout_parser {
+                if let (true, Some(layout_parser)) = (layout_parsing, layout_parser) {
+                    layout_parsing = false;
                     log!("\n{}", "*** Parsing layout".paint(WARN_BOLD));
                     let current_state = context.state();
                     context.set_state(S::default_layout().unwrap());
